@@ -349,6 +349,50 @@ def super_family():
   return ["\n".join(L) + "\n"]
 
 
+def compare_family():
+  """Branch pruning on comparisons whose operands are only partly known (compare.py `_compare_as_constant_tuples`,
+  `compatible_with`; vm_utils.jump_if): tuples mixing constants with values the analyser cannot know, every comparison
+  operator, constant prefixes that are equal / differ / where one is a strict prefix of the other, different lengths;
+  plus the same for scalars, strings, `in` and `is`.  Each statement stores a marker in one branch and a value of
+  another type in the other; the stub must admit what CPython computes."""
+  import itertools
+  import random as _random
+  pre = ["X2 = int('2')", "X3 = int('3')", "S = str('b')", "N = None if X2 else 0"]
+  elems = ["1", "2", "3", "X2", "X3"]
+  ops = ["<", "<=", ">", ">=", "==", "!="]
+  hand = [("(3, X2, 1)", "(3, 2, X3)"), ("(3, 2, X3)", "(3, X2, 1)"), ("(3, X2)", "(3, X2)"), ("(1, X2)", "(3, X3)"),
+          ("(3,)", "(3, X2)"), ("(3, X2)", "(3,)"), ("(3, X3, 1)", "(3, 2)"), ("(X2, 1)", "(3, 2)"), ("(2, X2, 5)", "(2, X3, 1)"),
+          ("(3, 1, X2)", "(3, 1, X3)"), ("()", "(X2,)"), ("(X3, X2)", "(3, 2)"), ("(3, (1, X2))", "(3, (1, 2))"),
+          ("('a', S)", "('a', 'b')"), ("('a', S, 1)", "('a', 'a', X2)"), ("(None, X2)", "(None, 2)")]
+  stmts = [(l, op, r) for l, r in hand for op in (ops if "None" not in l and "'a'" not in l else ["==", "!="])]
+  rnd = _random.Random(20260924)
+  tuples = ["(%s,)" % ", ".join(t) for n in (1, 2, 3) for t in itertools.product(elems, repeat=n)]
+  for _ in range(150):
+    stmts.append((rnd.choice(tuples), rnd.choice(ops), rnd.choice(tuples)))
+  scal = [("X2", "2"), ("X2", "3"), ("3", "X3"), ("X2", "X3"), ("S", "'b'"), ("S", "'a'"), ("X2", "2.0"), ("N", "None")]
+  for l, r in scal:
+    for op in (["==", "!="] if "N" in (l, r) or "None" in (l, r) else ops):
+      stmts.append((l, op, r))
+  for l, r in [("X2", "(1, 2)"), ("X3", "(1, 2)"), ("2", "(1, X2)"), ("3", "(X3, 1)"), ("S", "('a', 'b')"),
+               ("'b'", "(S, 'a')"), ("(3, X2)", "((3, 2), (1, 1))"), ("X2", "[1, X2]"), ("'k'", "{'k': X2}"), ("S", "{'b': 1}")]:
+    stmts.append((l, "in", r))
+    stmts.append((l, "not in", r))
+  for l, r in [("N", "None"), ("X2", "None"), ("(3, X2)", "(3, X2)")]:
+    stmts.append((l, "is", r))
+    stmts.append((l, "is not", r))
+  out = []
+  for i in range(0, len(stmts), 40):
+    L = list(pre)
+    for j, (l, op, r) in enumerate(stmts[i:i + 40]):
+      n = i + j
+      L += ["l%d = %s" % (n, l), "r%d = %s" % (n, r),
+            "if l%d %s r%d:" % (n, op, n), "  a%d = 1" % n, "else:", "  a%d = 's'" % n,
+            "b%d = [0] if l%d %s r%d else {'k': None}" % (n, n, op, n),
+            "if not (%s %s %s):" % (l, op, r), "  c%d = (1, 2)" % n, "else:", "  c%d = b''" % n]
+    out.append("\n".join(L) + "\n")
+  return out
+
+
 # --- oracle ---------------------------------------------------------------------------------------------------
 class Skip(Exception):
   pass
